@@ -92,7 +92,7 @@ def shard(binpath, seed, sh, n):
         if i % 3 == 0:
             # text-level variants around the document: each is judged on its own (one outcome over all channels)
             base = texts["plain"]
-            k = rng.randrange(23)
+            k = rng.randrange(25)
             tx, how = {
                 0: (base + "]", "trailing_bracket"), 1: (base + " x", "trailing_garbage"), 2: (base + base, "two_documents"),
                 3: (base + " \n\t\r\n", "trailing_whitespace"), 4: (base + ",", "trailing_comma"), 5: (base + "\x00", "trailing_nul"),
@@ -102,10 +102,12 @@ def shard(binpath, seed, sh, n):
                 17: non_ascii_id(base, rng, 63), 18: non_ascii_id(base, rng, 62),
                 19: two_spellings_of_a_member(base, rng), 20: two_spellings_of_a_member(base, rng),
                 21: long_list(base, d, rng), 22: long_list(base, d, rng),
+                23: dual_shape(base, d, rng, W), 24: dual_shape(base, d, rng, W),
                 14: extra_number_member(base, d, rng, False), 15: extra_number_member(base, d, rng, True), 16: extra_number_member(base, d, rng, False),
             }[k]
             groups.append([len(cases)])
-            cases.append({"op": "serde", "type": t, "text": tx, "meta": {"spelling": "text:" + how, "valid": False, "textmut": how}})
+            cases.append({"op": "serde", "type": "wrapper" if how.startswith("layout_and_link") else t, "text": tx,
+                          "meta": {"spelling": "text:" + how, "valid": False, "textmut": how}})
     obs = common.run_batch(binpath, cases, keys=False)
     for g in groups:
         rs = []
@@ -152,6 +154,19 @@ def dup_member(base, d, escaped):
         if ord(k[0]) > 0xFFFF:
             name = json.dumps(k)
     return (base[:-1] + "," + name + ":" + json.dumps(d[k], ensure_ascii=False) + "}", "duplicate_member" + ("_escaped" if escaped else ""))
+
+
+def dual_shape(base, d, rng, W):
+    """a document that carries every member of a layout AND every member of a link (neither form forbids further
+    members), declaring itself one or the other"""
+    if not isinstance(d, dict) or not ({"steps", "keys"} <= set(d) or {"materials", "products"} <= set(d)):
+        return (base + " \n", "trailing_whitespace")
+    lay = scen.mk_layout(W, ["ed4"], [scen.mk_step("s", 1, [W.kid("ed4")], [], [["ALLOW", "*"]], [])], [])
+    lnk = scen.mk_link("s", {"a": scen.digest(1)}, {"b": scen.digest(2)}, ["c"], {"return-value": 0}, None)
+    both = dict(lay, **lnk)
+    both.update({k: v for k, v in d.items() if k != "_type"})
+    both["_type"] = rng.choice(["link", "layout", "LINK", "both"])
+    return (json.dumps(both, ensure_ascii=False), "layout_and_link_members_in_one_document")
 
 
 def long_list(base, d, rng):
